@@ -537,6 +537,8 @@ def finish(check, tier, seed, results, tv_errors, wall):
     print(f"[{check.pid}] tier={tier} configs={len(results)} paths={total['paths']} obligations={obligations} (T0 {t0count}) "
           f"validated={total['validated']} known={len(known_hit)} violations={nviol} inconclusive={len(inconclusive)} "
           f"unconfirmed={len(unconfirmed)} errors={len(errors)} mismatches={len(mismatches)} solver_s={solver_s:.1f} wall={wall:.1f}s")
+    slow = sorted(results, key=lambda r: -r.get("wall_s", 0))[:3]
+    print("  slowest configs:", [(r.get("wall_s"), r["paths"], json.dumps(r["cfg"])[:110]) for r in slow])
     if nviol:
         return 1
     if harness_err:
